@@ -9,6 +9,36 @@ NOTE = ("Trusted: Coq 8.16.1 kernel + vm_compute (no native_compute); no axioms 
         "generator coverage bounds the tie. ")
 
 CHECKS = {
+ "C01": dict(
+   cat="proof",
+   text="Theorems (Props/C01.v, closed): for the PAR2 coder of the model over ANY slice and block counts within the format's limits, any subset of found slices and any subset of surviving recovery blocks (a table indexed by exponent with holes, as LoadParityData builds it), reconstruction - at the matrix level and at the level of the decoder's byte slices (repair_shards, with and without double-check) - returns EXACTLY the original slices, or not-enough-parity (exactly when blocks < missing slices), or the singular error; never a panic, never success with other bytes. Together with Props/C16.v (every cleanly present slice is found at any offset) and Props/C02.v (only data matching both recorded hashes and the length is written, and listed) this is the property; the composition of the three over the I/O layer is NOT one theorem - it is covered by the correspondence check. "
+        "Tied to the code on every run: Create, Verify and Repair of gopar (in memory through the verif hook and on real directories through the exported API) vs the extracted model on ~560 damaged states: delete/overwrite/flip/insert/cut/truncate/append/strip zeros/empty/swap/move-over and pairs, random subsets of recovery files dropped, >256 slices, >16 KiB files, duplicate-slice content, a constructed singular-leading-minor system needing row exchanges, double-check on/off; predicate on the implementation alone: success => all files byte-identical, within capacity => success.",
+   technique="Rocq proof: reconstruction exactness from Gauss-Jordan uniqueness (C11/C07) lifted to the decoder's shard table; differential correspondence check of the whole Create/Verify/Repair pipeline against the extracted model",
+   design="6/C01", note=NOTE + "MD5 is a section variable (OCaml Digest at run time); 'byte-identical' in theorems is 'matches the recorded MD5, 16k-MD5 and length'."),
+ "C02": dict(
+   cat="proof",
+   text="Theorems (Props/C02.v, closed): for EVERY file-system state, index path and fault schedule, Verify and the whole loading phase leave the file map unchanged and emit no write event; for every state (fault-free), Repair - success or failure, double-check on or off - yields the initial file map plus exactly the writes it lists, each to a protected file's path with data whose length, MD5 and first-16-KiB MD5 equal the archive's records. "
+        "Tied to the code: ~440 Repair runs (half on real directories whose whole tree incl. bystander files, a foreign .par2 in a sub-directory and a file outside is snapshotted before/after) incl. beyond-capacity damage, damaged/truncated/garbage/foreign recovery files, stale recovery files of a sibling set with identical ids (wrong reconstruction stopped only by the whole-file hash), Create in memory and on disk; predicate: changed subset of repaired subset of protected, content = original. PAR1 part: see C04/C10 model (added when built).",
+   technique="Rocq proof: I/O-trace framing invariants (loading preserves the file map; writes only behind both hash comparisons) by induction over the decoder's folds; snapshot-based differential correspondence check",
+   design="6/C02", note=NOTE),
+ "C03": dict(
+   cat="proof",
+   text="Theorems (Props/C03.v, closed): for every archive state, Verify reports 'no repair needed' only if every protected file is present with the recorded length, MD5 and 16k-MD5; usable+unusable = number of protected slices; the usable recovery-block count = number of distinct exponents among the loaded intact recovery packets; possible <=> unusable <= usable blocks; Verify never panics (any state, any fault schedule). Per-slice soundness and completeness are the scan theorems of Props/C16.v. "
+        "Tied to the code on ~1100 states incl., for every file of every set, the patterns that leave every slice findable while the file is wrong (front insertion, appended garbage, trailing zeros lost/added, swapped files) and CRC-preserving corruption (only MD5 distinguishes); independent content-search oracles for soundness/completeness. The pinned tree violated clause (a): fixed in /repo (see known_findings.json).",
+   technique="Rocq proof: flag/shard-table invariants of the loading fold + scan soundness/completeness; differential correspondence check with separating damage patterns",
+   design="6/C03", note=NOTE),
+ "C05": dict(
+   cat="proof",
+   text="The property predicate is an executable specification-side reader written in Gallina from the PAR 2.0 text (Model/Par2Spec.v valid_set: framing, lengths, packet MD5s, set id, ascending file ids, file/16k hashes, slice MD5/CRC32 incl. padding, creator packet, recovery block e = sum_i slice_i*c_i^e with the specification's constants and reduced carry-less products - never gopar's tables -, exponents 0..n-1 exactly once), extracted and run on the files gopar's Create wrote. Theorems (Props/C05.v): the writer model's framing round trip, padding, volume layout covering every block exactly once for every n, sorted permutation of ids, and each recovery block of the writer model = the specification's sum (see file; what is not yet proved is named there). "
+        "Tied to the code: ~30 sets per run (sub-directory names, name lengths not divisible by 4, sizes around the slice size and 16384, block counts 1..300 incl. powers of two, >256 slices, 300-byte names, 12 files, in memory and on disk): implementation output must be accepted by valid_set and equal the model writer byte for byte; inputs Create must refuse.",
+   technique="Rocq: executable specification validator (extracted) as oracle + writer-model theorems; byte-exact differential correspondence check",
+   design="6/C05", note=NOTE + "valid_set accepting the MODEL writer's output for all inputs is established by running, not yet by a theorem."),
+ "C16": dict(
+   cat="proof",
+   text="Theorems (Props/C16.v, closed): the rolling CRC-32 update of crc32Window is exact for EVERY window size >= 4 and every content (update(crc(a[0:n]),a[0],a[n]) = crc(a[1:n+1]), incl. the table construction from 8 base CRCs and the parity correction); window size < 4 panics; the scan that rolls the checksum equals the scan that recomputes it; FOUND-IF-NOT-SHADOWED: any position whose zero-padded window matches a registered checksum pair, with no matching window starting within S bytes before it, is a hit credited to every registered location; soundness of hits; an intact file yields hits at 0,S,2S,.. and no miss. "
+        "Tied to the code: for slice sizes 4, 8, 12 (64 sampled) x lengths m*S+{0,1,S-1} x content {random, low-entropy, duplicate slices}: EVERY edit position x insertion/deletion lengths {1,2,S-1,S,S+1,2S+3} (~9900 Verify runs) vs the model, a content-blind oracle for random content, and sampled Repairs with exactly as many blocks as unusable slices.",
+   technique="Rocq proof: linearity of the bitwise CRC register (rolling identity for all lengths) + induction over the greedy scan; exhaustive edit-position differential correspondence check",
+   design="6/C16", note=NOTE + "hash/crc32's IEEETable is modelled as the 8-fold register shift (its definition)."),
  "C07": dict(
    cat="proof",
    text="Theorems (Props/C07.v, closed): for the model of rsec16 (Cauchy and PAR2-Vandermonde parity matrices, GenerateParity, ReconstructData with the lowest-numbered available parity rows, augmented-matrix row reduction from C11) and ANY well-formed parity matrix, any data, any erasure masks: the result is the original data, or not-enough-parity, or singular - never a panic and never success with different data; not-enough-parity exactly when available parity < missing data; nothing missing => Ok without touching parity; both constructors yield well-formed matrices within the documented limits. "
@@ -78,6 +108,6 @@ def main():
     }
     json.dump(m, open(os.path.join(HERE, "MANIFEST.json"), "w"), indent=1)
 
-HOOK_COMMITS = ['e2ca3fb', '4a4f2dc']
+HOOK_COMMITS = ['e2ca3fb', '4a4f2dc', 'ef2c561']
 if __name__ == "__main__":
     main()
